@@ -1,7 +1,11 @@
 (* C20 - results do not depend on what the process did before.
    Statements only; every proof is [exact <lemma>].  Model: History/State.v (the process-wide state made explicit:
-   Rectangle's first-writer-wins tolerances, the decision-diagram store, the legaliser's module state), facts in
-   History/StateFacts.v.
+   Rectangle's first-writer-wins tolerances, the decision-diagram store, the legaliser's module state, the objects
+   bound to the default arguments of Ineq and Strop), facts in History/StateFacts.v.
+   The histories of the theorems are ARBITRARY lists of operations: nothing relates them to the probe, so they
+   contain in particular the probe's own design (executed any number of times) and near-duplicates of it - same cut
+   coordinates / other occupied cells, same names / other shapes, same inequality / other bound
+   (C20_history_with_probe_independent, C20_related_history_example).
 
    Reading.  A tolerance installed by the first design loaded in a process is RELATIVE to that design
    (1e-12 x its smallest dimension; 10e-12 x the smaller side of a die), so a later design is judged with an
@@ -149,6 +153,43 @@ Theorem C20_history_independent : forall (sqrt_o : Qc -> Qc), (forall x y, x <= 
                    (snd (step sqrt_o li lo_ b pr s_init p)).
 Proof. exact history_independent. Qed.
 Print Assumptions C20_history_independent.
+
+(* the history may contain the probed operation itself, any number of times, between arbitrary other operations
+   (idempotence: executing the probe earlier does not change its later answer) *)
+Theorem C20_history_with_probe_independent : forall (sqrt_o : Qc -> Qc), (forall x y, x <= y -> sqrt_o x <= sqrt_o y) ->
+  forall (li lo_ : Type) (b : li -> lo_) (pr : li -> Qc * Qc * Qc) lo hi, lo <= hi ->
+  forall (h1 h2 : list (opn li)) (n : nat) (p : opn li),
+  Forall (cand_ok sqrt_o li lo hi) h1 -> Forall (posts_ok li) h1 ->
+  Forall (cand_ok sqrt_o li lo hi) h2 -> Forall (posts_ok li) h2 ->
+  cand_ok sqrt_o li lo hi p -> posts_ok li p -> probe_robust sqrt_o li lo hi p ->
+  obs_equiv lo_ (snd (step sqrt_o li lo_ b pr (run sqrt_o li lo_ b pr (h1 ++ repeat p (S n) ++ h2) s_init) p))
+                   (snd (step sqrt_o li lo_ b pr s_init p)).
+Proof. exact history_with_probe_independent. Qed.
+Print Assumptions C20_history_with_probe_independent.
+
+(* a history of near-duplicates: two dies with exactly the same cut coordinates and other occupied cells, the probe's
+   own design among them; the hypotheses of C20_history_independent hold, the two designs have different results,
+   and the probe's result after the history is the decomposition of its own cells *)
+Theorem C20_related_history_example :
+  Forall (cand_ok (fun x => x) unit ex_band_lo ex_band_hi) ex_rel_hist /\
+  Forall (posts_ok unit) ex_rel_hist /\
+  cand_ok (fun x => x) unit ex_band_lo ex_band_hi ex_die_probe /\
+  probe_robust (fun x => x) unit ex_band_lo ex_band_hi ex_die_probe /\
+  In ex_die_probe ex_rel_hist /\
+  snd (ex_step s_init ex_die_other) <> snd (ex_step s_init ex_die_probe) /\
+  exists g sp bl fx,
+    snd (ex_step (ex_run ex_rel_hist s_init) ex_die_probe) = RDie unit (DM.Accept g sp bl fx) /\
+    snd (ex_step s_init ex_die_probe) = RDie unit (DM.Accept g sp bl fx) /\
+    boxes_eqb (map box4 g) [(qc 3 1, qc 1 1, qc 6 1, qc 2 1); (qc 5 1, qc 3 1, qc 2 1, qc 2 1)] = true /\
+    boxes_eqb (map box4 sp) [(qc 1 1, qc 3 1, qc 2 1, qc 2 1); (qc 3 1, qc 3 1, qc 2 1, qc 2 1)] = true.
+Proof. exact related_history_hypotheses_satisfiable. Qed.
+Print Assumptions C20_related_history_example.
+
+(* ---- objects bound to default arguments: no operation writes them ---- *)
+Theorem C20_defaults_never_written : forall (sqrt_o : Qc -> Qc) (li lo : Type) (b : li -> lo) (pr : li -> Qc * Qc * Qc)
+  (h : list (opn li)) s, g_dflt (run sqrt_o li lo b pr h s) = g_dflt s.
+Proof. exact defaults_never_written. Qed.
+Print Assumptions C20_defaults_never_written.
 
 (* ---- where the dependence is: a gap inside the band ---- *)
 Theorem C20_nonrobust_probe_differs :
